@@ -423,6 +423,9 @@ def judge_asl(out, r, where, src_text=None, claim_termination=True):
     if r.timed_out:
         out.inconc('timeout: asl %s' % where)
         return None
+    if r.rc == -1 and r.err.startswith(b'spawn failed'):
+        out.inconc('harness: could not start asl')
+        return None
     if r.san:
         return r.san
     if r.rc == 96:
@@ -635,7 +638,7 @@ def run_case(case, ctx):
             _, cpu, name, nargs, i, j = member
             for variant in (0, 3, 4):
                 text = b_source(cpu, name, nargs, i, j, variant)
-                claim = not big_count(text) and name not in ('WHILE', 'READ', 'INCLUDE')
+                claim = not big_count(text) and name not in ('WHILE', 'READ', 'INCLUDE') and not (name == 'REPT' and nargs and V1[i] not in ('0', '1', '-1', '2', '255', '256') if nargs == 1 else name == 'REPT')
                 case_small(ctx, member, text, 'B:%s:%s:%d:%d:%d:v%d' % (cpu, name, nargs, i, j, variant), claim=claim)
             out.sets['pseudo_ops'].add(name)
         elif k == 'C':
